@@ -112,6 +112,8 @@ def run(ctx):
         ctx.count("os_probe_refusals", sum(1 for x in drv.probe.answers if not x))
         ctx.count("id_lookups", orc.stats["id_lookups"])
         ctx.count("write_read_roundtrips", orc.stats["roundtrips"])
+        ctx.count("unresolvable_host_readers_refusing_loudly", orc.stats.get("unresolvable_refused", 0))
+        ctx.count("unresolvable_host_readers_answering", orc.stats.get("unresolvable_answered", 0))
         ctx.count("max_nodes_seen", 0)
         ctx.coverage["max_nodes_seen"] = max(ctx.coverage["max_nodes_seen"], max([len(K.all_endpoints(ob["cfg"])) // 3 for _, ob in steps] or [0]))
         for f, net, ids, names in orc.id_cases:
